@@ -12,6 +12,8 @@ def real_binary(ctx):
         ctx.violation(name, 'real binary: tools/realbin.py jobserver_tokens\n', w)
     for name, w in realbin.jobserver_child_interrupted(ninja):
         ctx.violation(name, 'real binary: tools/realbin.py jobserver_child_interrupted\n', w)
+    for name, w in realbin.jobserver_limits(ninja):
+        ctx.violation(name, 'real binary: tools/realbin.py jobserver_limits\n', w)
     for name, w in realbin.concurrency_limits(ninja):
         ctx.violation(name, 'real binary: tools/realbin.py concurrency_limits\n', w)
     for name, w in realbin.jobserver_abort_unreaped(ninja):
